@@ -110,6 +110,8 @@ def region_obligations(ix, R):
     wrong = [code(fl, x) for x in WRONG_SPACE]
     exits = fl.of('return') + fl.of('raise')
     exits.sort(key=lambda e: fl.events.index(e))
+    from sa.helpers import split_exits
+    exits = split_exits(fl, exits)
     # collect comparison atoms of the guards
     forms = []
     unit = []
@@ -504,7 +506,10 @@ def run(ix, R):
         pe = param_env(fl, f, ['T', 'p', 'w'])
         r = the_return(fl)
         want = spec(fl, 'self.interp_bilinear_grid(T, log10(p), *self.find_closest_index(T, log10(p)), w)/10000', pe)
-        R.check('5.compute', 'ALG', site, stmt, fl.tab.equal(r.value, want),
+        # the four indices may also be unpacked by hand and passed one by one, in the order they are returned
+        want2 = spec(fl, 'self.interp_bilinear_grid(T, log10(p), I[0], I[1], I[2], I[3], w)/10000',
+                     dict(pe, I=spec(fl, 'self.find_closest_index(T, log10(p))', pe)))
+        R.check('5.compute', 'ALG', site, stmt, fl.tab.equal(r.value, want) or fl.tab.equal(r.value, want2),
                 key='returns %s' % fmt(fl, r.value), detail='returns %s\n    expected %s' % (
                     fmt(fl, r.value), fmt(fl, want)), loc=f.loc(r.node), extracted=fmt(fl, r.value))
         # parameter order of interp_bilinear_grid matches find_closest_index's tuple
